@@ -324,6 +324,8 @@ def _main(prop, tier, seed, scen_name, scratch, t0, only):
                 harness_msgs.append("harness error in job %d (%s %s): %s" % (
                     ji, job['fn'], json.dumps(job['cfg'])[:120], str(rec.get('exc'))[:600]))
             for ob in rec['obls']:
+                if os.environ.get('VERIF_DEBUG') and ob.get('t', 0) > 3:
+                    log('   slow obligation %s %.1fs %s %s' % (ob['label'], ob['t'], ob['verdict'], json.dumps(job['cfg'])[:150]))
                 canary_ob = ob['label'].startswith('canary')
                 if canary_ob:
                     if ob['verdict'] == 'sat':
